@@ -9,11 +9,23 @@ the same cases  ->  verdict, replay file, evidence file.
 import json, os, re, subprocess, sys, time, hashlib, glob, shutil
 
 VERIF = os.path.dirname(os.path.dirname(os.path.abspath(__file__)))
-REPO = "/repo"
+# the repository under test; VERIF_REPO_DIR redirects every check to a scratch copy (used for testing the
+# checks against seeded mutants without touching /repo); registered commands never set it
+REPO = os.environ.get("VERIF_REPO_DIR", "/repo")
 COQ = os.path.join(VERIF, "coq")
 WORK = os.path.join(VERIF, "work")
 # development aid: a scratch copy of the harness module can be used instead of /verif/harness
 HARNESS = os.environ.get("VERIF_HARNESS_DIR", os.path.join(VERIF, "harness"))
+if REPO != "/repo" and "VERIF_HARNESS_DIR" not in os.environ:
+    # private copy of the harness module whose go.mod points at the scratch repository
+    _h = os.path.join("/tmp", "verif_harness_" + hashlib.sha1(REPO.encode()).hexdigest()[:10])
+    os.makedirs(_h, exist_ok=True)
+    for _f in glob.glob(os.path.join(VERIF, "harness", "*.go")) + [os.path.join(VERIF, "harness", "go.mod")]:
+        shutil.copy(_f, _h)
+    _m = open(os.path.join(_h, "go.mod")).read().replace("=> /repo", "=> " + REPO)
+    open(os.path.join(_h, "go.mod"), "w").write(_m)
+    HARNESS = _h
+    WORK = os.path.join("/tmp", "verif_work_" + hashlib.sha1(REPO.encode()).hexdigest()[:10])
 ENV = dict(os.environ, GOFLAGS="-mod=mod", GOPROXY="off", GOSUMDB="off", GOTOOLCHAIN="local",
            CGO_ENABLED=os.environ.get("CGO_ENABLED", "0"))
 
